@@ -37,6 +37,10 @@ var propConfigs = map[string]*propConfig{
 		"disassembly of immediates wider than 62 bits is excluded by precondition (get_id is specified for fields up to 62 bits)",
 		"round trips are stated per opcode through proof harnesses (assemble, check the word width as the dispatcher does, disassemble); Machine.Disassembler's loop over a whole program is not under contract",
 	}},
+	"C15": {pkgs: []string{"./pkg/simbox", "./pkg/bondmachine", "./pkg/procbuilder"}, notes: []string{
+		"decided: Simbox.Add appends exactly one, not suspended, rule or leaves the list untouched; Del/Suspend/Reactivate have exactly their stated effect and change nothing else; bondmachine.SimConfig.Init and procbuilder.SimConfig.Init set an option iff it was already set or some not-suspended configuration rule names it (a suspended rule has no effect on the configuration)",
+		"not decided: the print/parse round trip of rules (Rule.String against Add needs a theory of strings.Split over concatenations that the uninterpreted string model does not have), SimDrive.Init/SimReport.Init (store and compare *interface{} pointers; outside the subset) and the per-tick injection/report semantics",
+	}},
 	"C16": {pkgs: []string{"./pkg/procbuilder", "./pkg/bondmachine", "./pkg/basm", "./pkg/bondgo", "./pkg/bmstack", "./pkg/bmserialize", "./pkg/bondirect"}, notes: []string{
 		"requirement inference of the front ends (basm, bondgo, neuralbond: how many registers/ports/ROM cells a source needs) is string-, map- and goroutine-server code outside the verifiable subset",
 		"opcode list sortedness/duplicate-freedom and Rsize agreement between machine and domains are not decided",
